@@ -67,6 +67,7 @@ enum OpC : uint8_t {
     EXCHANGE, CAS, CONVERT, X_RETRY, S_RETRY, X_HANDOVER, S_HANDOVER, X_TRY_UNLOCK, S_TRY_UNLOCK, NOPC
 };
 extern const char* opc_name[NOPC];
+extern uint64_t g_quiesce;  // stamp taken by the main fiber after joining all clients (deferred effects are due then)
 extern void* g_other;  // a second wrapper of the same type (hand-over-hand programs)
 inline bool is_shared_op(int c) { return (c >= S_LOCK && c <= READ_RET) || c == S_RETRY || c == S_HANDOVER || c == S_TRY_UNLOCK; }
 
